@@ -113,6 +113,11 @@ type outLine struct {
 
 var verifDir = "/verif"
 
+// outDir receives evidence/ and replays/; it differs from verifDir only when a
+// check is pointed at another tree (VERIF_REPO, seeded changes), so that such
+// runs never overwrite the evidence of the registered checks.
+var outDir = "/verif"
+
 func die(code int, format string, a ...any) {
 	fmt.Fprintf(os.Stderr, "verif: "+format+"\n", a...)
 	os.Exit(code)
@@ -133,6 +138,10 @@ func main() {
 	}
 	if d := os.Getenv("VERIF_DIR"); d != "" {
 		verifDir = d
+	}
+	outDir = verifDir
+	if d := os.Getenv("VERIF_OUT"); d != "" {
+		outDir = d
 	}
 	switch os.Args[1] {
 	case "check":
@@ -388,7 +397,7 @@ func runCheck(prop, tier string) int {
 		exit = 2
 	}
 	// violations: minimise, re-replay, report
-	os.MkdirAll(filepath.Join(verifDir, "replays"), 0o755)
+	os.MkdirAll(filepath.Join(outDir, "replays"), 0o755)
 	keys := make([]string, 0, len(a.viols))
 	for k := range a.viols {
 		keys = append(keys, k)
@@ -406,7 +415,7 @@ func runCheck(prop, tier string) int {
 			rf.Message += "\n" + ol.Log[0]
 		}
 		name := fmt.Sprintf("%s-%d-%d-%s.json", prop, ol.Seed, ol.Run, sim.Hash(k))
-		path := filepath.Join(verifDir, "replays", name)
+		path := filepath.Join(outDir, "replays", name)
 		rb, _ := json.MarshalIndent(rf, "", " ")
 		os.WriteFile(path, rb, 0o644)
 		if ol.Plan == nil {
@@ -744,9 +753,9 @@ func writeEvidence(prop, tier string, seed uint64, cfg checkCfg, a *agg, wall fl
 			"race_detector":       cfg.Race,
 		},
 	}
-	os.MkdirAll(filepath.Join(verifDir, "evidence"), 0o755)
+	os.MkdirAll(filepath.Join(outDir, "evidence"), 0o755)
 	b, _ := json.MarshalIndent(ev, "", " ")
-	if err := os.WriteFile(filepath.Join(verifDir, "evidence", prop+".json"), b, 0o644); err != nil {
+	if err := os.WriteFile(filepath.Join(outDir, "evidence", prop+".json"), b, 0o644); err != nil {
 		fmt.Fprintf(os.Stderr, "verif: cannot write evidence: %v\n", err)
 	}
 }
